@@ -3,6 +3,9 @@ CONSTANTS
   Kinds = {"cdef", "cpdef", "meth", "cpmeth"}
   CrossPtr = TRUE
   Legacy = {FALSE, TRUE}
+  WTypes = {"schar", "uchar", "short", "ushort", "uint", "long", "ulong", "llong", "ullong", "ssize_t", "size_t", "float"}
+  WKinds = {"cdef", "cpdef", "meth", "cpmeth"}
+  SentCast = "rtype"
   Dump = TRUE
 INVARIANT ImplAgrees
 INVARIANT ErrConsistent
